@@ -32,6 +32,12 @@ pub fn add_entry(name: &str, addr: u64, len: usize) {
     r.push(Region { kind: "entry", name: name.to_string(), addr, len, snap });
 }
 
+/// watch bytes that nothing may ever write (neighbours, forwarded-to bodies)
+pub fn add_arena(name: &str, addr: u64, len: usize) {
+    let snap = unsafe { peek(addr, len) };
+    REGIONS.lock().unwrap().push(Region { kind: "arena", name: name.to_string(), addr, len, snap });
+}
+
 pub fn add_tramp(addr: u64, len: usize) {
     let l = len.min(64);
     let snap = unsafe { peek(addr, l) };
